@@ -336,7 +336,14 @@ impl Stream for DnsResponseReceiver {
                     let future = ready!(
                         receiver
                             .poll(cx)
-                            .map_err(|_| NetError::from("receiver was canceled"))
+                            // the connection's background task went away with the request
+                            // still pending: a connection failure, not an answer
+                            .map_err(|_| {
+                                NetError::from(io::Error::new(
+                                    io::ErrorKind::ConnectionAborted,
+                                    "receiver was canceled",
+                                ))
+                            })
                     )?;
                     Self::Received(future)
                 }
